@@ -140,7 +140,8 @@ def evaluate(ck, recs, tag="calls", count=True):
             if count:
                 ck.count()
                 ck.nontrivial(shape(r))
-            pad = r["plan"]["attempts"][max(1, r["attempts"]) - 1].get("pad", 0) if r["plan"]["attempts"] else 0
+            pa = r["plan"]["attempts"]
+            pad = pa[min(len(pa), max(1, r["attempts"])) - 1].get("pad", 0) if pa else 0
             if r["class"] == "ok" and pad and r.get("pay_len", 0) < pad:
                 code = max(code, 2)  # truncated payload
             if code != 0 or r.get("panic"):
